@@ -174,6 +174,16 @@ theorem bare_reads_back (c : EncCfg) (s : Str) (hb : needsQuotesBase c s = .ok f
           · cases hb
           · cases hb
 
+theorem encodeTextString_ok (c : EncCfg) (s t : Str) (h : encodeTextString c s = .ok t) :
+    encodeStringBase c s true = .ok t := by
+  unfold encodeTextString at h
+  split at h
+  · rename_i t' ht
+    split at h
+    · cases h
+    · simp only [Except.ok.injEq] at h; subst h; exact ht
+  · cases h
+
 /-- an encoder that writes the string as it stands (no quotes) had `needs_quotes` answer `False` -/
 theorem bare_of_encodeString (c : EncCfg) (s : Str) (h : encodeString c s = .ok s) :
     needsQuotesBase c s = .ok false := by
@@ -205,7 +215,7 @@ theorem bare_of_encodeString (c : EncCfg) (s : Str) (h : encodeString c s = .ok 
           have := congrArg List.length h
           simp at this
           omega
-        · exact absurd rfl (quoted_ne c s s h)
+        · exact absurd rfl (quoted_ne c s s (encodeTextString_ok c s s h))
   · -- pds
     cases hn : needsQuotes c s with
     | error e => simp [hn] at h
@@ -224,7 +234,7 @@ theorem bare_of_encodeString (c : EncCfg) (s : Str) (h : encodeString c s = .ok 
           have := congrArg List.length h
           simp at this
           omega
-        · exact absurd rfl (quoted_ne c s s h)
+        · exact absurd rfl (quoted_ne c s s (encodeTextString_ok c s s h))
   · -- isis
     cases hn : needsQuotes c s with
     | error e => simp [hn] at h
